@@ -1,4 +1,5 @@
 ; ---- specification functions taken from the property statements (DESIGN.md Appendix B)
+
 ; C19: Twig's slice index rules. n = number of elements, start, hasLen/length as written.
 (define-fun twigLo ((n Int) (start Int)) Int
   (ite (< start 0) (imax 0 (+ n start)) (imin start n)))
@@ -17,6 +18,7 @@
   (let ((lo (twigLo n start)) (hi (twigHi n start hasLen length)))
     (ite (<= hi lo) (= (s.len r) 0)
          (and (= (s.arr r) (s.arr s)) (= (s.off r) (+ (s.off s) lo)) (= (s.len r) (- hi lo)))))))
+
 ; C13: dash classes of delimiter token types (numbers are the values of the TOKEN_* constants;
 ; the contract of isBlockEndToken re-states them against the package constants as a canary)
 (define-fun cls ((t Int)) Int
@@ -25,11 +27,38 @@
   (ite (= t 15) 3      ; BLOCK_START_TRIM ~ BLOCK_START
   (ite (= t 16) 4      ; BLOCK_END_TRIM   ~ BLOCK_END
    t)))))
+
 ; C17: wraps(a, b) — the cause b can be found from a with errors.Is/errors.As (reflexive, transitive)
 (declare-fun wraps (Iface Iface) Bool)
 ; reflexivity and transitivity are instantiated by the generator where they are needed (at each
 ; return and at each wrapper call) instead of being asserted as quantified axioms
 (declare-fun errIs (Iface Iface) Bool)
+
 ; C06: the security policy is an arbitrary predicate over names ("every policy")
 (declare-fun allowedFilter (Iface Str) Bool)
 (declare-fun allowedFunction (Iface Str) Bool)
+
+; ---- output/evaluation trace (ghost `tr`): abstract events in program order.
+; emitRender(t, node, ctx): node (an interface value) was rendered in context ctx
+; emitEval(t, node, ctx):   node was evaluated in ctx; evalRes gives the value that evaluation yields
+(declare-sort Tr 0)
+(declare-fun emitRender (Tr Iface Int) Tr)
+(declare-fun emitEval (Tr Iface Int) Tr)
+(declare-fun emitText (Tr Str) Tr)
+(declare-fun evalRes (Tr Iface Int) Iface)
+(declare-fun fn_toBool_0 (Int Iface) Bool) ; the value of (*RenderContext).toBool (a deterministic function, see its contract)
+
+; evalsUpTo(t, a, o, k, c): trace after evaluating a[o..o+k) in order
+(declare-fun evalsUpTo (Tr (Array Int Iface) Int Int Int) Tr)
+(assert (forall ((t Tr) (a (Array Int Iface)) (o Int) (c Int)) (! (= (evalsUpTo t a o 0 c) t) :pattern ((evalsUpTo t a o 0 c)))))
+(assert (forall ((t Tr) (a (Array Int Iface)) (o Int) (k Int) (c Int)) (! (=> (> k 0) (= (evalsUpTo t a o k c) (emitEval (evalsUpTo t a o (- k 1) c) (select a (+ o (- k 1))) c))) :pattern ((evalsUpTo t a o k c)))))
+
+; rendersUpTo(t, a, o, k, c): trace after rendering a[o..o+k) in order
+(declare-fun rendersUpTo (Tr (Array Int Iface) Int Int Int) Tr)
+(assert (forall ((t Tr) (a (Array Int Iface)) (o Int) (c Int)) (! (= (rendersUpTo t a o 0 c) t) :pattern ((rendersUpTo t a o 0 c)))))
+(assert (forall ((t Tr) (a (Array Int Iface)) (o Int) (k Int) (c Int)) (! (=> (> k 0) (= (rendersUpTo t a o k c) (emitRender (rendersUpTo t a o (- k 1) c) (select a (+ o (- k 1))) c))) :pattern ((rendersUpTo t a o k c)))))
+
+; falsyUpTo(t, a, o, k, c): the first k evaluations all gave falsy values
+(declare-fun falsyUpTo (Tr (Array Int Iface) Int Int Int) Bool)
+(assert (forall ((t Tr) (a (Array Int Iface)) (o Int) (c Int)) (! (falsyUpTo t a o 0 c) :pattern ((falsyUpTo t a o 0 c)))))
+(assert (forall ((t Tr) (a (Array Int Iface)) (o Int) (k Int) (c Int)) (! (=> (> k 0) (= (falsyUpTo t a o k c) (and (falsyUpTo t a o (- k 1) c) (not (fn_toBool_0 c (evalRes (evalsUpTo t a o (- k 1) c) (select a (+ o (- k 1))) c)))))) :pattern ((falsyUpTo t a o k c)))))
